@@ -15,6 +15,7 @@ DECIDED = ["R21 every panic-capable site reachable from the decoders is structur
 UNDECIDED = ["correctness of the justified table itself (frozen with one reason per entry)",
              "stack exhaustion through deeply nested input"]
 
+READY = False   # under triage: not claimed in MANIFEST until every site is triaged
 JUSTIFIED = {}
 
 
